@@ -3,6 +3,7 @@ Emitted `deserialize`, semantics part 4: a whole class.
 -/
 import SymbolVerif.Proofs.Codec.EmissionDesRun
 import SymbolVerif.Proofs.Codec.EmissionDesBase
+import SymbolVerif.Proofs.Codec.EmissionDesUnionStep
 import SymbolVerif.Proofs.Codec.EmissionClass
 namespace SymbolVerif.Codec
 open SymbolVerif.Bytes
@@ -90,10 +91,27 @@ theorem storedOk_of {S : Schema} {d : StructDef} (h : wfgdStruct S d = true) :
   simp only [Bool.and_eq_true, beq_iff_eq] at h
   exact h.1.2
 
-/-- a concrete class without base class and without forward conditions: whatever the interpreter decodes, the
-    emitted `deserialize` returns -/
+/-- when all members are read nothing is parked any more, and every member is in scope or a base-class member -/
+theorem SimQ.final {sm : Option String} {d : StructDef} {σ : PyState} {st : DecState} {ast : DesAstState}
+    {base pre : List Field} {pend : PendQ} (hQ : SimQ S d sm σ st ast d.fields base pre pend) :
+    ∀ x ∈ d.fields, x ∈ base ∨ x ∈ pre := by
+  have hp : pend = none := by
+    cases hp : pend with
+    | none => rfl
+    | some p =>
+      obtain ⟨dn, G⟩ := p
+      obtain ⟨-, -, -, -, h6, g, hg, hgn, -⟩ := hQ.qsome dn G hp
+      exact absurd hgn (h6 g hg)
+  subst hp
+  intro x hx
+  rcases (hQ.mem x).mp hx with h | h | h
+  · exact Or.inl h
+  · exact Or.inr h
+  · cases h
+
+/-- a concrete class without base class: whatever the interpreter decodes, the emitted `deserialize` returns -/
 theorem emittedDeserialize_nobase (hwf : WF S = true) (hwgd : WFGD S = true) {name : String} {d : StructDef}
-    (hfind : S.find name = some (.struct d)) (hbase : d.base = none) (hnu : d.noUnion = true)
+    (hfind : S.find name = some (.struct d)) (hbase : d.base = none)
     (hnn : ∀ ty b v, r.dec ty b = .ok v → v ≠ .none) {ty : String} {payload : Bytes} {v : Val}
     (hdec : decConcrete S T r ty d payload = .ok v) :
     emittedDeserialize S T r ty d payload = .ok v := by
@@ -106,31 +124,40 @@ theorem emittedDeserialize_nobase (hwf : WF S = true) (hwgd : WFGD S = true) {na
   simp only [Except.ok.injEq] at hdec
   subst hdec
   unfold decFields at hst
-  have hitems : emitDeserialize S d = d.fields.map (fun f => DesItem.field (desFieldAst S d (sizeMemberOf d) f none)) := by
+  have hitems : emitDeserialize S d = newItems S d (sizeMemberOf d) d.fields {} := by
     unfold emitDeserialize
-    rw [hown, emitDesLoop_early S d (sizeMemberOf d) d.fields [] {} rfl rfl hnu]
+    rw [hown, emitDesLoop_newItems]
     rfl
   have hS0 : Sim ({ buffer := payload } : PyState) { buf := payload, origLen := payload.length } [] [] :=
     ⟨rfl, (fun _ h => by cases h), (fun _ h => by cases h), (fun _ h => by cases h), (fun _ h => by cases h)⟩
-  obtain ⟨σ, hex, hS, -, -⟩ := decFrom_sim (S := S) (T := T) (r := r) hnn hw.names hgd (sizeMemberOf d)
-    (sizeMember_iff hw hgd) d (fun st i => rebase_no_base d hbase st i) [] d.fields [] [] _ _ st 0 (by simp)
-    (by simpa using hw.fields) (by simpa using hw.covered) (by simpa [StructDef.noUnion] using hnu)
-    (fun _ _ _ _ x hx => by cases hx) hS0 rfl hst
+  have hQ0 : SimQ S d (sizeMemberOf d) ({ buffer := payload } : PyState) { buf := payload, origLen := payload.length } {}
+      [] [] [] none :=
+    ⟨hS0, (fun x => by simp [pendList]), (fun _ h => by cases h), (fun _ h => by cases h), (fun _ h => by cases h),
+      (fun _ h => by cases h), (fun _ h => by cases h), (fun _ h => by cases h), rfl, (fun _ => rfl),
+      (fun _ _ h => by cases h)⟩
+  obtain ⟨σ, pre, pend, hex, hQ⟩ := decFrom_simQ (S := S) (T := T) (r := r) hnn hw.names hgd
+    (sizeMember_iff hw hgd) d (fun st i => rebase_no_base d hbase st i) [] d.fields [] [] _ _ st 0 {} [] none (by simp)
+    (by simpa using hw.fields) (by simpa using hw.covered) (fun _ _ _ _ x hx => by cases hx) hQ0 hst
+  simp only [List.nil_append] at hQ
+  have hfin := hQ.final
   unfold emittedDeserialize
   simp only [hbase, hitems, hex, bind, Except.bind]
   unfold objectOf at hvs
   have hsets : setsOf d σ = .ok vs := by
     unfold setsOf
     rw [storedOk_of (WFGD_struct hwgd hfind), hown]
-    exact setsOf_eq (fun f hf => (hgd f hf).2.2.1) _ (fun f hf => (List.mem_filter.mp hf).1)
-      (fun f hf => by simpa using (List.mem_filter.mp hf).2)
-      (fun x hx v hv => hS.loc x (by simpa using (List.mem_filter.mp hx).1) v hv) vs hvs
+    refine setsOf_eq (fun f hf => (hgd f hf).2.2.1) _ (fun f hf => (List.mem_filter.mp hf).1)
+      (fun f hf => by simpa using (List.mem_filter.mp hf).2) ?_ vs hvs
+    intro x hx v hv
+    rcases hfin x (List.mem_filter.mp hx).1 with h | h
+    · cases h
+    · exact hQ.sim.loc x h v hv
   rw [hsets]
 
-/-- a concrete class with a base class (no forward conditions): `Base._deserialize`, the window it returns, then the
-    class's own members in a fresh scope -/
+/-- a concrete class with a base class: `Base._deserialize`, the window it returns, then the class's own members in a
+    fresh scope -/
 theorem emittedDeserialize_base (hwf : WF S = true) (hwgd : WFGD S = true) {name : String} {d : StructDef}
-    (hfind : S.find name = some (.struct d)) {a : String} (hbase : d.base = some a) (hnu : d.noUnion = true)
+    (hfind : S.find name = some (.struct d)) {a : String} (hbase : d.base = some a)
     (hnn : ∀ ty b v, r.dec ty b = .ok v → v ≠ .none) {ty : String} {payload : Bytes} {v : Val}
     (hdec : decConcrete S T r ty d payload = .ok v) :
     emittedDeserialize S T r ty d payload = .ok v := by
@@ -310,24 +337,28 @@ theorem emittedDeserialize_base (hwf : WF S = true) (hwgd : WFGD S = true) {name
       exact hst2
     have hwf' : wfFieldsFrom S d [] (da.fields ++ ownFields d) = true := by rw [← hsplit]; exact hw.fields
     have hcov' : coveredFrom S [] (da.fields ++ ownFields d) = true := by rw [← hsplit]; exact hw.covered
-    have hearly' : earlyFrom [] (da.fields ++ ownFields d) = true := by rw [← hsplit]; exact hnu
-    have hearlyO := earlyFrom_append da.fields [] (ownFields d) hearly'
     have hSc : Sim ({ buffer := (rebase d st1 d.inherited).buf } : PyState) (rebase d st1 d.inherited) da.fields [] := by
       refine ⟨rfl, (fun _ h => by cases h), (fun _ h => by cases h), ?_, (fun _ h => by cases h)⟩
       intro nv hnv
       rw [rebase_env] at hnv
       obtain ⟨x, hx, hxn⟩ := hS1.names nv hnv
       exact ⟨x, by simpa using hx, hxn⟩
-    obtain ⟨σ2, hex2, hS2, -, -, -⟩ := decFrom_sim (S := S) (T := T) (r := r) hnn hw.names hgd (sizeMemberOf d)
-      (sizeMember_iff hw hgd) d0 hreb0 da.fields (ownFields d) [] [] _ _ st d.inherited (by simpa using hsplit)
+    have hQ0 : SimQ S d (sizeMemberOf d) ({ buffer := (rebase d st1 d.inherited).buf } : PyState)
+        (rebase d st1 d.inherited) {} da.fields da.fields [] none :=
+      ⟨hSc, (fun x => by simp [pendList]), (fun _ h => by cases h), (fun _ h => by cases h), (fun _ h => by cases h),
+        huncond, (fun _ h => by cases h), (fun _ h => by cases h), rfl, (fun _ => by rw [rebase_queued]; exact hq1),
+        (fun _ _ h => by cases h)⟩
+    obtain ⟨σ2, pre2, pend2, hex2, hQ2⟩ := decFrom_simQ (S := S) (T := T) (r := r) hnn hw.names hgd
+      (sizeMember_iff hw hgd) d0 hreb0 da.fields (ownFields d) da.fields [] _ _ st d.inherited {} [] none
+      (by simpa using hsplit)
       (by simpa using wfFieldsFrom_append da.fields [] (ownFields d) hwf')
       (by simpa using coveredFrom_append da.fields [] (ownFields d) hcov')
-      (by simpa using hearlyO) hvis hSc (by rw [rebase_queued]; exact hq1) hst2'
-    have hitems : emitDeserialize S d =
-        (ownFields d).map (fun f => DesItem.field (desFieldAst S d (sizeMemberOf d) f none)) := by
+      hvis hQ0 hst2'
+    rw [← hsplit] at hQ2
+    have hfin := hQ2.final
+    have hitems : emitDeserialize S d = newItems S d (sizeMemberOf d) (ownFields d) {} := by
       unfold emitDeserialize
-      rw [emitDesLoop_early S d (sizeMemberOf d) (ownFields d) [] {} rfl rfl
-        (earlyFrom_hid da.fields (ownFields d) [] hvis (by simpa using hearlyO))]
+      rw [emitDesLoop_newItems]
       rfl
     have hsetsO : setsOf d σ2 = .ok vsO := by
       unfold setsOf
@@ -336,19 +367,27 @@ theorem emittedDeserialize_base (hwf : WF S = true) (hwgd : WFGD S = true) {name
         (fun f hf => by rw [hsplit]; exact List.mem_append_right _ (List.mem_filter.mp hf).1)
         (fun f hf => by simpa using (List.mem_filter.mp hf).2) (env := st.env) ?_ vsO hvsO
       intro x hx v hv
-      exact hS2.loc x (by simpa using (List.mem_filter.mp hx).1) v hv
+      have hxo : x ∈ ownFields d := (List.mem_filter.mp hx).1
+      rcases hfin x (by rw [hsplit]; exact List.mem_append_right _ hxo) with h | h
+      · -- an own member is not a base-class member: names are distinct
+        exfalso
+        have hnd := hw.names
+        rw [hsplit, List.map_append] at hnd
+        exact allDistinct_disjoint hnd x.name (List.mem_map_of_mem (f := (·.name)) h)
+          (List.mem_map_of_mem (f := (·.name)) hxo)
+      · exact hQ2.sim.loc x h v hv
     rw [hitems, hex2]
     simp only [hsetsO]
 
-/-- a concrete class without forward conditions, with or without base class -/
+/-- a concrete class, with or without base class, with or without members laid out before their discriminant -/
 theorem emittedDeserialize_of_dec (hwf : WF S = true) (hwgd : WFGD S = true) {name : String} {d : StructDef}
-    (hfind : S.find name = some (.struct d)) (hnu : d.noUnion = true)
+    (hfind : S.find name = some (.struct d))
     (hnn : ∀ ty b v, r.dec ty b = .ok v → v ≠ .none) {ty : String} {payload : Bytes} {v : Val}
     (hdec : decConcrete S T r ty d payload = .ok v) :
     emittedDeserialize S T r ty d payload = .ok v := by
   cases hb : d.base with
-  | none => exact emittedDeserialize_nobase hwf hwgd hfind hb hnu hnn hdec
-  | some a => exact emittedDeserialize_base hwf hwgd hfind hb hnu hnn hdec
+  | none => exact emittedDeserialize_nobase hwf hwgd hfind hb hnn hdec
+  | some a => exact emittedDeserialize_base hwf hwgd hfind hb hnn hdec
 
 /-- the interpreter's decoders never return `None` -/
 theorem recN_dec_ne_none (S : Schema) (T : String → Bytes → Bytes) : ∀ (n : Nat) (ty : String) (b : Bytes) (v : Val),
